@@ -22,7 +22,7 @@ PROPERTY_ID = "C13"
 LEVEL = "model_checking"
 ASSUMPTIONS = [
     "documented types = mcx/props/c13.py:SPEC written from the field annotations / doc_type / help texts",
-    "unspecified (only checked for consistency across entry points): bool where an int is documented, None for heading_anchors, "
+    "unspecified (only checked for consistency across entry points): bool where an int is documented, a float equal to an allowed integer and None for heading_anchors, "
     "non-list iterables (str, dict, set) where a list of names is documented, gfm_only/linkify (need linkify-it-py)",
     "rejection by any exception type counts as rejection",
     "global_only fields are excluded from the front-matter effect clause; so are commonmark_only (front matter is not CommonMark syntax, so the two documents cannot be framed alike) and sub_delimiters / ref_domains (no docutils-level global setting)",
@@ -35,7 +35,7 @@ EXTS = {"amsmath", "attrs_image", "attrs_inline", "attrs_block", "colon_fence", 
         "html_image", "linkify", "replacements", "smartquotes", "strikethrough", "substitution", "tasklist"}
 
 POOL = [
-    None, True, False, 0, 1, 7, 8, -1, 1.5, "", "x", "dollarmath", "myst_parser.config.main._test_slug_func", "no.such.func", "nodots",
+    None, True, False, 0, 1, 7, 8, -1, 1.5, 200.0, 0.0, 1.0, "", "x", "[]", "ab", "dollarmath", "myst_parser.config.main._test_slug_func", "no.such.func", "nodots",
     "myst_parser.config.main.no_such_attr", "myst_parser.__version__", "myst_parser.config.main.MdParserConfig.words_per_minute", [], ["x"], ["dollarmath"], ["dollarmath", "nope"], [1], ("a", "b"), ["{", "}"], ["ab", "c"], {"x"}, {"dollarmath"},
     {}, {"x": "y"}, {"x": 1}, {"x": None}, {1: "y"}, {"http": {"url": "u", "title": "t", "classes": ["c"]}}, {"http": {"url": 1}},
     {"http": {"classes": "abc"}}, {"http": {"classes": [1]}}, {"http": {"title": 2}}, {"http": 5}, {"http": 0}, {"http": False}, {"http": []}, {"http": 0.0}, {"k": ["u", None]}, {"k": ["u", "p"]}, {"k": ["u"]}, {"k": [1, None]},
@@ -66,6 +66,8 @@ def t_int(v):
 def t_anchor(v):
     if v is None or isinstance(v, bool):
         return U
+    if isinstance(v, float) and v.is_integer() and 0 <= v <= 7:
+        return U  # a float EQUAL to an allowed integer (the validator is a membership test): unspecified like bool-for-int; entry points must still agree
     return V if isinstance(v, int) and 0 <= v <= 7 else I
 
 
@@ -203,7 +205,7 @@ def try_construct(field, value):
 class ValueSystem(System):
     name = "values"
     chunk = 8
-    description = f"{len(FIELDS)} fields x {len(POOL)} values x entry points constructor / copy() / front matter (myst: and deprecated top level)"
+    description = f"{len(FIELDS)} fields x {len(POOL)} values x entry points constructor / copy() / Sphinx conf value / front matter (myst: and deprecated top level)"
 
     def bounds(self):
         return {"fields": len(FIELDS), "values": len(POOL)}
@@ -250,6 +252,32 @@ class ValueSystem(System):
                 bad("canonical", f"stored as {getattr(cfg, field)!r}, canonical form is {exp}", entry="constructor")
             if cp_ok and canon(getattr(cp, field)) != got:
                 bad("canonical", f"copy() stores {getattr(cp, field)!r}, constructor {getattr(cfg, field)!r}", entry="copy")
+        # Sphinx conf.py value (create_myst_config): accepted iff the constructor accepts it, and stored the same way; an invalid
+        # value leaves the defaults in force (the error is logged)
+        omit = {f.name for f in dc.fields(MdParserConfig) if "sphinx" in f.metadata.get("omit", [])}
+        if field not in omit:
+            import types
+
+            from myst_parser.sphinx_ext.main import create_myst_config
+
+            conf = {f"myst_{n}": copy.deepcopy(d) for n, d, _ in MdParserConfig().as_triple()}
+            conf[f"myst_{field}"] = copy.deepcopy(value)
+            app = types.SimpleNamespace(config=conf, env=types.SimpleNamespace())
+            import logging
+
+            try:
+                logging.disable(logging.CRITICAL)  # (the handler reports an invalid value through the Sphinx logger)
+                try:
+                    create_myst_config(app)
+                finally:
+                    logging.disable(logging.NOTSET)
+                sx = app.env.myst_config
+                if accepted and canon(getattr(sx, field)) != canon(getattr(cfg, field)):
+                    bad("accept", f"as a Sphinx conf value it is stored as {getattr(sx, field)!r}, the constructor stores {getattr(cfg, field)!r}", entry="sphinx-conf")
+                if not accepted and canon(getattr(sx, field)) != canon(getattr(MdParserConfig(), field)):
+                    bad("accept", f"the constructor rejects the value but as a Sphinx conf value it is in force ({getattr(sx, field)!r})", entry="sphinx-conf")
+            except Exception as exc:
+                bad("accept", f"create_myst_config raised {type(exc).__name__}: {exc}", entry="sphinx-conf")
         # front matter over a non-default global
         g = MdParserConfig(html_meta={"g": "G"}, substitutions={"g": 1}, enable_extensions=["deflist"], url_schemes={"ftp": None},
                            heading_anchors=1, fence_as_directive=["gg"])
